@@ -49,6 +49,16 @@ CHECKS = {
         text="which manager is reported where comes from the spec; the line of its with keyword and its target come from the AST that was rendered; varname is parsed and compared structurally",
         note="static leg (stdlib with statements, unexecuted) not claimed; target grammar is the table in harness/progs.py",
         ref="3.6, 4 C08"),
+    "C18": dict(
+        technique="TLA+ transcription of the tree renderer as a pure function over abstract Stack trees (Format.tla: Fmt = prefix markers + payload per line); real Stacks built from real frames are formatted and compared line by line with Fmt; independent reader recovers the nesting; unique decodability checked over all generated trees",
+        text="for every generated tree (frames hidden / without source line, contexts exiting / hidden / with inner stacks, child contexts, child task stacks stub or populated, leaf, error blocks) x the four (show_contexts, show_hidden_frames) sets x unicode/ascii: markers must match exactly and payloads by element identity; hidden iff show_hidden_frames, show_contexts=False is the frame series (TLC invariants); str == join(format())",
+        note="payload text opaque; blank separator lines are not part of the nesting (an invisible populated child stack and a stub differ only by blank lines); trees sampled by a seeded generator (depth <= 3), not exhaustively",
+        ref="3.9, 4 C18"),
+    "C19": dict(
+        technique="Format.tla Entries (the summary projection) on the same abstract trees; real as_stdlib_summary()/format_flat() compared entry by entry, pickled, searched for reachable frames",
+        text="entries in order with (file, line, annotated name): context entries at the with-line or the frame's line, inner stacks with contexts, child contexts, frame's own entry omitted only when its last context is exiting; capture_locals on and off; pickle round trip; no FrameType reachable; format_flat == header + StackSummary.format() + leaf + error",
+        note="as C18",
+        ref="3.9, 4 C19"),
     "C20": dict(
         technique="WithLang.tla behaviours observed in referents mode; the ObsReferents relaxation (ordered super-sequence, extras only entering/exiting manager, is_exiting iff exit in progress) decided per observation on 3.9-3.12",
         text="same behaviours as C01 with set_trickery_enabled(False); the relaxed acceptance rule is the property's own statement",
